@@ -2,7 +2,9 @@ package rules
 
 import (
 	"go/ast"
+	"go/token"
 	"go/types"
+	"strings"
 
 	"verif/mlbcheck/chk"
 )
@@ -597,13 +599,42 @@ func familyPairRule(p *chk.Prog, r *chk.Report) {
 		a6 := g.GPat(true, "X.To4() == nil", chk.H("X", elem("0")))
 		b6 := g.GPat(true, "X.To4() == nil", chk.H("X", elem("1")))
 		differ := chk.GOr(chk.GAnd(a6, chk.GNot(b6)), chk.GAnd(chk.GNot(a6), b6))
+		// however the families are obtained (To4, ForAddress, a list of families filled in a loop): every condition that
+		// involves both addresses treats them alike - it reads the same when the two are exchanged
+		symmetric, nPair := true, 0
+		ast.Inspect(f.Body, func(nd ast.Node) bool {
+			var cond ast.Expr
+			switch y := nd.(type) {
+			case *ast.IfStmt:
+				cond = y.Cond
+			case *ast.CaseClause:
+				for _, e := range y.List {
+					if a, b := pairCanon(f, g, par, e, false), pairCanon(f, g, par, e, true); strings.Contains(a, "\x000") && strings.Contains(a, "\x001") {
+						nPair++
+						if a != b {
+							symmetric = false
+						}
+					}
+				}
+			}
+			if cond != nil {
+				if a, b := pairCanon(f, g, par, cond, false), pairCanon(f, g, par, cond, true); strings.Contains(a, "\x000") && strings.Contains(a, "\x001") {
+					nPair++
+					if a != b {
+						symmetric = false
+					}
+				}
+			}
+			return true
+		})
+		symOK := symmetric && nPair > 0
 		nDual, nDelegate, nOther := 0, 0, 0
 		for _, rt := range g.Returns() {
 			rr := retResults(rt)
 			switch {
 			case len(rr) == 2 && isObjNamed(f, "internal/ipfamily.DualStack")(rr[0]):
 				nDual++
-				x.Check(name+":dual-stack-means-the-two-differ", rt.Pos(), g.Dominated(rt, differ), "", "two addresses are classified as dual-stack (or refused) depending on their order, not only on their families: a status that lists the IPv6 address first is taken for a family change and the Service is re-allocated on every sync")
+				x.Check(name+":dual-stack-means-the-two-differ", rt.Pos(), symOK || g.Dominated(rt, differ), "", "two addresses are classified as dual-stack (or refused) depending on their order, not only on their families: a status that lists the IPv6 address first is taken for a family change and the Service is re-allocated on every sync")
 			case len(rr) == 1 && f.MatchNew("ForAddresses(S)", ast.Unparen(rr[0])) != nil && name == "ForAddressesIPs":
 				nDelegate++
 				// every address reaches the string form handed on
@@ -613,13 +644,19 @@ func familyPairRule(p *chk.Prog, r *chk.Report) {
 					apps := g.Find(func(nd ast.Node) bool {
 						return chk.InBody(rs, nd) && f.IsAssignPat("L", "append(L, IP.String())", chk.H("L", func(e ast.Expr) bool { return f.SameExpr(e, b["S"]) }), chk.H("IP", rangeVal(f, rs)))(nd)
 					})
+					if len(apps) == 0 {
+						// filled by index into a list of the same length
+						apps = g.Find(func(nd ast.Node) bool {
+							return chk.InBody(rs, nd) && f.IsAssignPat("L[I]", "IP.String()", chk.H("L", func(e ast.Expr) bool { return f.SameExpr(e, b["S"]) }), chk.H("I", rangeKey(f, rs)), chk.H("IP", rangeVal(f, rs)))(nd)
+						})
+					}
 					okAll = len(apps) == 1 && !loopCanSkip(g, rs, func(nd ast.Node) bool { return nd == apps[0].Top }) && !loopHasBreak(g, rs) && g.AfterLoop(rt, rs)
 				}
 				x.Check(name+":every-address-handed-on", rt.Pos(), okAll, "", "ForAddressesIPs does not hand every address to ForAddresses")
 			case len(rr) == 2 && isObjNamed(f, "internal/ipfamily.Unknown")(rr[0]) && g.Dominated(rt, g.GPat(true, "len(P) == 2", chk.H("P", par))):
 				// a pair is refused only when an address is invalid or the two are of one family
 				invalid := chk.GOr(g.GPat(true, "X == nil", chk.H("X", elem("0"))), g.GPat(true, "X == nil", chk.H("X", elem("1"))))
-				x.Check(name+":pair-refused-only-for-one-family", rt.Pos(), g.Dominated(rt, chk.GOr(chk.GNot(differ), invalid)), "", "two valid addresses of different families are refused in one of the two orders: a status that lists the IPv6 address first is taken for a family change and the Service is cleared and re-allocated on every sync")
+				x.Check(name+":pair-refused-only-for-one-family", rt.Pos(), symOK || g.Dominated(rt, chk.GOr(chk.GNot(differ), invalid)), "", "two valid addresses of different families are refused in one of the two orders: a status that lists the IPv6 address first is taken for a family change and the Service is cleared and re-allocated on every sync")
 				nOther++
 			default:
 				nOther++
@@ -627,4 +664,73 @@ func familyPairRule(p *chk.Prog, r *chk.Report) {
 		}
 		x.Check(name+":classifies-pairs", f.Pos(), nDual >= 1 || (nDelegate >= 1 && nOther == 0), "", "no dual-stack answer and no delegation to ForAddresses")
 	}
+}
+
+// pairCanon renders a condition with everything that stands for the first / second element of the list parameter
+// replaced by the markers \x000 / \x001 (exchanged when swap is set) and the operands of ==, !=, && and || in sorted
+// order: two renderings are equal exactly when the condition treats the two elements alike.
+func pairCanon(f *chk.Fn, g *chk.Graph, par func(ast.Expr) bool, e ast.Expr, swap bool) string {
+	slot := func(i int) string {
+		if swap {
+			i = 1 - i
+		}
+		return "\x00" + string(rune('0'+i))
+	}
+	var mentionsSlot func(e ast.Expr, depth int) int
+	mentionsSlot = func(e ast.Expr, depth int) int {
+		found := -1
+		ast.Inspect(e, func(n ast.Node) bool {
+			if ix, ok := n.(*ast.IndexExpr); ok {
+				if c, isC := constInt(f, ix.Index); isC && (c == 0 || c == 1) {
+					found = int(c)
+				}
+			}
+			return found < 0
+		})
+		return found
+	}
+	var rec func(e ast.Expr) string
+	rec = func(e ast.Expr) string {
+		e = ast.Unparen(e)
+		switch y := e.(type) {
+		case *ast.BinaryExpr:
+			a, b := rec(y.X), rec(y.Y)
+			switch y.Op {
+			case token.EQL, token.NEQ, token.LAND, token.LOR:
+				if b < a {
+					a, b = b, a
+				}
+			}
+			return "(" + a + " " + y.Op.String() + " " + b + ")"
+		case *ast.UnaryExpr:
+			return y.Op.String() + rec(y.X)
+		case *ast.CallExpr:
+			out := rec(y.Fun) + "("
+			for i, a := range y.Args {
+				if i > 0 {
+					out += ", "
+				}
+				out += rec(a)
+			}
+			return out + ")"
+		case *ast.SelectorExpr:
+			return rec(y.X) + "." + y.Sel.Name
+		case *ast.IndexExpr:
+			if c, isC := constInt(f, y.Index); isC && (c == 0 || c == 1) {
+				return rec(y.X) + "[" + slot(int(c)) + "]"
+			}
+			return rec(y.X) + "[" + rec(y.Index) + "]"
+		case *ast.Ident:
+			// a local defined from element 0 / 1 of something (ip1 := net.ParseIP(ips[0]))
+			if def, _ := g.DefOf(y, g.FactSite(y)); def != nil {
+				if i := mentionsSlot(def, 0); i >= 0 {
+					// the definition with its slot abstracted names the local
+					return "{" + rec(def) + "}"
+				}
+			}
+			return y.Name
+		}
+		return f.Src(e)
+	}
+	return rec(e)
 }
